@@ -88,12 +88,10 @@ Proof. unfold getd. intros ->. reflexivity. Qed.
 Lemma amem_aget {V} d (l : list (Z * V)) : amem d l = true -> exists x, aget d l = Some x.
 Proof. unfold amem. destruct (aget d l); [eauto|discriminate]. Qed.
 
-(** * every world step preserves the invariant *)
-Theorem wstep_HoldW nw w w' : wstep nw w w' -> HoldW w -> HoldW w'.
+(** any device update that leaves the reservation fields alone preserves the invariant *)
+Lemma HoldW_updd w d f : keeps_res f -> HoldW w -> HoldW (updd w d f).
 Proof.
-  intros S HW. pose proof HW as [H1 H2 H3 H4 H5]. destruct S.
-  - (* a device transformer that keeps the holding *)
-    rename H into Pr, H0 into KR, H6 into G. split.
+  intros KR HW. pose proof HW as [H1 H2 H3 H4 H5]. split.
     + exact H1.
     + unfold updd, setd. cbn. rewrite keys_arepl. exact H2.
     + intros d0 x i Hx Hr. unfold updd, setd in Hx. cbn in Hx. apply aget_arepl_some in Hx.
@@ -110,6 +108,13 @@ Proof.
     + intro m. unfold hold_total, updd, setd. cbn. rewrite hold_sum_arepl.
       destruct (aget d (f_devs w)) as [y|] eqn:Hy; [|rewrite H5; unfold hold_total; lia].
       rewrite (getd_aget w d y Hy). rewrite dev_hold_keeps by exact KR. rewrite H5. unfold hold_total. lia.
+Qed.
+
+(** * every world step preserves the invariant *)
+Theorem wstep_HoldW nw w w' : wstep nw w w' -> HoldW w -> HoldW w'.
+Proof.
+  intros S HW. pose proof HW as [H1 H2 H3 H4 H5]. destruct S.
+  - apply HoldW_updd; assumption.
   - apply (HoldW_same w); auto.
   - apply (HoldW_same w); unfold failf; destruct (f_err w =? 0); auto.
   - apply (HoldW_same w); auto.
